@@ -13,7 +13,7 @@
 (*                  (`rp': ack first, then the inner command; a forward is  *)
 (*                  applied by the primary and re-emitted)                  *)
 (*   Reply(x,y)     the head reply line of link x->y is processed by x      *)
-(*                  (`ok' ignored, `ack' counted)                           *)
+(*                  (`ack' counted; `ok' lines are not modelled)            *)
 (* Each link is FIFO in both directions.  One database, keys with value and *)
 (* version, the version rule of set_value, tombstones, increment.           *)
 (*                                                                         *)
@@ -147,8 +147,9 @@ Deliver(x, y) ==
          r == ApplyMsg(y, m)
      IN /\ req' = [req EXCEPT ![<<x, y>>] = Tail(@)]
         /\ store' = [store EXCEPT ![y] = r[1]]
-        \* the session answers: ack first (for rp), then ok / error
-        /\ rsp' = [rsp EXCEPT ![<<x, y>>] = @ \o (IF isrp THEN <<[ack |-> m.id, from |-> y]>> ELSE <<>>) \o <<[ack |-> 0, from |-> y]>>]
+        \* the session answers: ack (for rp), then ok / error -- the `ok' line is left out: the dialling
+        \* side skips it without any effect (the simulator consumes it without a step of its own)
+        /\ rsp' = [rsp EXCEPT ![<<x, y>>] = @ \o (IF isrp THEN <<[ack |-> m.id, from |-> y]>> ELSE <<>>)]
         \* a successfully processed request is re-emitted to the receiver's replication queue
         /\ replq' = IF r[2] THEN Enq(y, [kind |-> m.kind, k |-> m.k, v |-> m.v, ver |-> m.ver, d |-> m.d]) ELSE replq
         /\ clock' = clock + 1
